@@ -1,0 +1,67 @@
+//go:build verif
+// +build verif
+
+package builtInFunctions
+
+import (
+	"fmt"
+	"reflect"
+	"sort"
+
+	vmcommon "github.com/ElrondNetwork/elrond-vm-common"
+)
+
+// VerifPackagePrefixes reports name, content, len and cap of the package level key prefixes.
+// Only compiled with the build tag `verif`; used by the verification harness in /verif.
+func VerifPackagePrefixes() []string {
+	return []string{
+		fmt.Sprintf("roleKeyPrefix %x %d %d", roleKeyPrefix, len(roleKeyPrefix), cap(roleKeyPrefix)),
+		fmt.Sprintf("noncePrefix %x %d %d", noncePrefix, len(noncePrefix), cap(noncePrefix)),
+	}
+}
+
+// VerifDescribeFunction dumps every scalar / byte-slice / map-size field of a built-in function object
+// (recursing into embedded structs and pointers to structs of this package) in a deterministic order.
+func VerifDescribeFunction(fn vmcommon.BuiltinFunction) []string {
+	out := make([]string, 0)
+	v := reflect.ValueOf(fn)
+	verifDescribeValue("", v, &out, 0)
+	sort.Strings(out)
+	return out
+}
+
+func verifDescribeValue(path string, v reflect.Value, out *[]string, depth int) {
+	if depth > 3 {
+		return
+	}
+	switch v.Kind() {
+	case reflect.Ptr:
+		if v.IsNil() {
+			*out = append(*out, path+"=nil")
+			return
+		}
+		if v.Elem().Kind() == reflect.Struct && v.Elem().Type().PkgPath() == reflect.TypeOf(esdtTransfer{}).PkgPath() {
+			verifDescribeValue(path, v.Elem(), out, depth+1)
+		}
+	case reflect.Struct:
+		t := v.Type()
+		if t.PkgPath() == "sync" || t.PkgPath() == "sync/atomic" {
+			return
+		}
+		for i := 0; i < v.NumField(); i++ {
+			verifDescribeValue(path+"."+t.Field(i).Name, v.Field(i), out, depth+1)
+		}
+	case reflect.Uint64, reflect.Uint32, reflect.Uint:
+		*out = append(*out, fmt.Sprintf("%s=%d", path, v.Uint()))
+	case reflect.Bool:
+		*out = append(*out, fmt.Sprintf("%s=%v", path, v.Bool()))
+	case reflect.String:
+		*out = append(*out, fmt.Sprintf("%s=%q", path, v.String()))
+	case reflect.Slice:
+		if v.Type().Elem().Kind() == reflect.Uint8 {
+			*out = append(*out, fmt.Sprintf("%s=bytes:%x:len=%d:cap=%d", path, v.Bytes(), v.Len(), v.Cap()))
+		}
+	case reflect.Map:
+		*out = append(*out, fmt.Sprintf("%s=map:len=%d", path, v.Len()))
+	}
+}
